@@ -102,6 +102,15 @@ def anonymise(t):
 
 # ---------------------------------------------------------------- real engine
 
+def is_bound(v):
+    """is this engine Variable bound right now? (the engine keeps a flag; a refactored engine that drops the flag is
+    asked through the public get_value instead, so that the monitors keep judging instead of crashing)"""
+    try:
+        return bool(v._is_bound)
+    except AttributeError:
+        return v.get_value() is not v
+
+
 class Cyclic(Exception):
     """raised by the reference when a unification is subject to occurs check"""
 
@@ -164,7 +173,7 @@ def snap_real_iter(E, terms, cap=200000):
                 del vals[len(vals) - k:]
                 vals.append(('c', name, tuple(args)))
                 continue
-            while isinstance(t, E.Variable) and t._is_bound:
+            while isinstance(t, E.Variable) and is_bound(t):
                 t = t._value
             if isinstance(t, E.Variable):
                 k = id(t)
